@@ -239,6 +239,7 @@ def run(ck, F, E):
     fail_readonly(ck, F, E)
     stacks_dropped_only_with_breakpoint(ck, F, E)
     cont_arm(ck, F)
+    failing_dim_is_readonly(ck, F)
 
     # ---- breaking at an INPUT prompt and CONTinuing re-executes the INPUT statement: it must do nothing until a reply exists
     from props.C08 import await_rule
@@ -343,6 +344,29 @@ def fail_readonly(ck, F, E):
                        "breakpoint changes what CONT resumes" % (body.path, variant, "; ".join(sorted(set(bad)))), sp)
     ck.floor("C07.control-statement failures constructed in Program", len(seen_variants - {"propagated", "Err"}), len(CONTROL_FAILURES))
     ck.floor("C07.failure-atomic Program methods found", len(n_atomic), len(FAILURE_ATOMIC))
+
+
+def failing_dim_is_readonly(ck, F):
+    """A DIM typed at a breakpoint that fails (REDIM'D ARRAY, OUT OF MEMORY) assigns nothing: no path of Arrays::create that
+    ends in an error has touched the array map (`insert` first and judge by what it returned replaces the program's array by
+    a zeroed one before reporting the error)."""
+    from lib import path_records
+    b = get_fn(ck, F, "Arrays::create")
+    if b is None:
+        return
+    bad = 0
+    n = 0
+    for r in path_records(b):
+        failing = (r["outcome"] or "").startswith("Err") or any(c.callee.endswith("from_residual") for c in r["calls"])
+        if not failing:
+            continue
+        n += 1
+        if any(c.callee.split("::")[-1] in ("insert", "remove", "clear", "entry", "get_mut", "retain") and "HashMap" in c.callee for c in r["calls"]):
+            bad += 1
+    ck.require(n > 0 and bad == 0, "C07:FAIL-READONLY:Arrays::create", "failing control statements are read-only",
+               "none of the %d failing paths of Arrays::create has modified the array map" % n,
+               "Arrays::create can fail after it has already modified the array map (%d of %d failing paths): a DIM typed at a "
+               "breakpoint that is rejected has still replaced the program's array" % (bad, n), b.span)
 
 
 def cont_arm(ck, F):
